@@ -161,7 +161,12 @@ impl<'a> IrEmitter<'a> {
             BinOpEmitKind::StdlibCall { path } => Ok(quote! { #path(#l, #r) }),
             BinOpEmitKind::Pow { result_is_int } => {
                 if result_is_int {
-                    Ok(quote! { #l.pow(#r as u32) })
+                    // A bare integer literal has no definite type for a method call (`2.pow(..)` is ambiguous).
+                    if matches!(left.kind, IrExprKind::Int(_)) {
+                        Ok(quote! { (#l as i64).pow(#r as u32) })
+                    } else {
+                        Ok(quote! { #l.pow(#r as u32) })
+                    }
                 } else {
                     Ok(quote! { #l.powf(#r) })
                 }
